@@ -1242,6 +1242,12 @@ func replay(out *hutil.Out, o *opa, file, work string) {
 		c.Table, c.Hit, c.Err, c.FilesScanned = nil, nil, "", 0
 		runAll(o, env, []*LintCase{&c})
 		out.Emit(c)
+	case "walk":
+		var c WalkCase
+		must(json.Unmarshal(r.Case, &c))
+		c.Table, c.Cols, c.Compiler, c.Hit, c.Kept, c.Err, c.FilesScanned = nil, nil, nil, nil, nil, "", 0
+		runWalkCases(o, walkEnvFor(work), []*WalkCase{&c})
+		out.Emit(c)
 	case "pat":
 		var c struct {
 			P     string `json:"p"`
@@ -1306,6 +1312,8 @@ func main() {
 	lap("bulk")
 	smallCases(out, o, rng, tier, all)
 	lap("small")
+	walkCases(out, o, rng, tier, work)
+	lap("walk")
 	lintCases(out, o, rng, tier, work)
 	lap("lint")
 }
